@@ -1,6 +1,7 @@
 package main
 
 import (
+	"go/printer"
 	"go/ast"
 	"fmt"
 	"go/token"
@@ -135,6 +136,16 @@ func (p *Program) structObligations() *FuncResult {
 		}
 		ex.obls = append(ex.obls, &Obl{Name: "service#struct:every_message_and_query_is_routed_to_its_own_handler", Kind: "struct", Goal: goal, Props: []string{"C05", "C17", "C20"}, Src: src})
 	}
+	// module wiring (C05 C11 C17 C19 C20): the AppModule methods the SDK calls hand over to the functions under contract
+	if bad, n := p.moduleWiringProblems(); true {
+		goal := tTrue
+		src := fmt.Sprintf("%d AppModule methods: EndBlock runs EndBlocker(ctx, am.keeper); Route = NewRoute(RouterKey, NewHandler(am.keeper)); LegacyQuerierHandler = keeper.NewQuerier(am.keeper, cdc); RegisterQueryService registers am.keeper; InitGenesis/ExportGenesis call the package functions with am.keeper", n)
+		if len(bad) > 0 || n != 6 {
+			goal = tFalse
+			src += " -- found: " + strings.Join(bad, "; ")
+		}
+		ex.obls = append(ex.obls, &Obl{Name: "service#struct:the_module_hands_blocks_messages_queries_and_genesis_to_the_functions_under_contract", Kind: "struct", Goal: goal, Props: []string{"C05", "C11", "C17", "C19", "C20"}, Src: src})
+	}
 	if len(ex.obls) > 0 {
 		ex.trusted["InitGenesis iterates over genesis maps: order-independent because the written keys are pairwise distinct (true for exported genesis)"] = true
 	}
@@ -238,4 +249,82 @@ func returnedCall(body []ast.Stmt) (string, []string) {
 		}
 	}
 	return name, args
+}
+
+// moduleWiringProblems inspects the AppModule methods of module.go that the SDK calls: each must contain, as a top-level
+// statement of its body, the expected call with the module's keeper (printed source compared after normalising the receiver and
+// parameter names).
+func (p *Program) moduleWiringProblems() (bad []string, n int) {
+	want := map[string]func(recv string, params []string) string{
+		"EndBlock":             func(r string, ps []string) string { return "EndBlocker(" + ps[0] + ", " + r + ".keeper)" },
+		"Route":                func(r string, ps []string) string { return "sdk.NewRoute(types.RouterKey, NewHandler(" + r + ".keeper))" },
+		"LegacyQuerierHandler": func(r string, ps []string) string { return "keeper.NewQuerier(" + r + ".keeper, " + ps[0] + ")" },
+		"RegisterQueryService": func(r string, ps []string) string { return "types.RegisterQueryServer(" + ps[0] + ", " + r + ".keeper)" },
+		"InitGenesis":          func(r string, ps []string) string { return "InitGenesis(" + ps[0] + ", " + r + ".keeper, genesisState)" },
+		"ExportGenesis":        func(r string, ps []string) string { return "ExportGenesis(" + ps[0] + ", " + r + ".keeper)" },
+	}
+	for _, pk := range p.pkgs {
+		if pk.PkgPath != modPath {
+			continue
+		}
+		for _, f := range pk.Syntax {
+			for _, d := range f.Decls {
+				fd, ok := d.(*ast.FuncDecl)
+				if !ok || fd.Recv == nil || fd.Body == nil || len(fd.Recv.List) != 1 {
+					continue
+				}
+				rt, ok := fd.Recv.List[0].Type.(*ast.Ident)
+				if !ok || rt.Name != "AppModule" {
+					continue
+				}
+				mk, ok := want[fd.Name.Name]
+				if !ok {
+					continue
+				}
+				n++
+				recv := "_"
+				if len(fd.Recv.List[0].Names) == 1 {
+					recv = fd.Recv.List[0].Names[0].Name
+				}
+				var params []string
+				for _, fl := range fd.Type.Params.List {
+					for _, nm := range fl.Names {
+						params = append(params, nm.Name)
+					}
+				}
+				if len(params) == 0 {
+					params = []string{"_"} // Route() has no parameter; its pattern uses none
+				}
+				expect := mk(recv, params)
+				found := false
+				for _, st := range fd.Body.List {
+					var e ast.Expr
+					switch x := st.(type) {
+					case *ast.ExprStmt:
+						e = x.X
+					case *ast.ReturnStmt:
+						if len(x.Results) == 1 {
+							e = x.Results[0]
+						}
+					case *ast.AssignStmt:
+						if len(x.Rhs) == 1 {
+							e = x.Rhs[0]
+						}
+					}
+					if e == nil {
+						continue
+					}
+					var sb strings.Builder
+					printer.Fprint(&sb, p.fset, e)
+					if strings.Join(strings.Fields(sb.String()), " ") == expect {
+						found = true
+					}
+				}
+				if !found {
+					bad = append(bad, fd.Name.Name+": no top-level statement "+expect)
+				}
+			}
+		}
+	}
+	return bad, n
 }
